@@ -113,7 +113,7 @@ def mk(cls, params, **kw):
     if f is not None:
         return f(**kw)
     c = getattr(M, name)
-    return c(**params, **kw)
+    return quiet(c, **params, **kw)       # overflow / divide warnings of extreme parameters are not the subject here
 
 
 class Live:
@@ -201,7 +201,8 @@ def measure_inside(cls, params, lower, upper, expect):
         room = max(1.0, abs(hi))
         v = hi - room
     else:
-        v = min(max(0.0, lo), lo + (hi - lo) * 0.25)        # the point of least magnitude: best resolution of the noise
+        # the point of least magnitude that leaves room above it: best resolution of the (positive) noise
+        v = max(0.0, lo) if hi > max(0.0, lo) else lo + (hi - lo) * 0.25
         room = hi - v
     if not room > 0:
         return float("nan"), 1.0
@@ -211,6 +212,10 @@ def measure_inside(cls, params, lower, upper, expect):
     for _ in range(40):
         s1, p1, o1 = measure_laplace_scale(cls, params, v, small_uniforms(target))
         s2, p2, o2 = measure_laplace_scale(cls, params, v, small_uniforms(target / 2))
+        if o1 == v and o2 == v and expect > 0 and expect * target <= 16 * math.ulp(v if v else 1e-300):
+            # the noise the calibration calls for is below the spacing of the doubles around every admissible value: it
+            # is absorbed by `value - scale * L` and cannot be read off the outputs (granularity of doubles: not modelled)
+            return float("nan"), 1.0
         inside = all((math.isinf(lo) or o > lo) and (math.isinf(hi) or o < hi) for o in (o1, o2))
         if inside and (s1 == s2 or abs(s1 - s2) <= max(1e-7, 4 * (p1 + p2)) * abs(s1)):
             return s1, p1
@@ -255,7 +260,7 @@ def measure_gauss_sigma(cls, params):
     outs = []
     m = None
     for script in ([1.0, 0.0], [0.0, 1.0]):
-        m = mk(cls, params, random_state=srng(normals=script))
+        m = quiet(mk, cls, params, random_state=srng(normals=script))
         outs.append(float(quiet(m.randomise, 0.0)))
     return math.hypot(outs[0], outs[1]), float(m._scale)
 
@@ -423,6 +428,15 @@ def g_positions(r, lo, hi, t, outside):
 
 # =========================================================================================== verdicts
 
+def slack_eps(eps):
+    """the epsilon at which the hockey-stick divergence is evaluated when delta > 0.  Inside the property's range
+    (eps <= 50) exactly eps.  Beyond it (the huge-epsilon region probed for noise-free shortcuts) the divergence is
+    hypersensitive to the LAST BIT of the scale — sens / b = eps (1 + 1e-16) already gives H ~ eps * 1e-16 — so the
+    property's own relative slack on epsilon (1e-9, stated for delta = 0) is applied as well."""
+    e = d(eps)
+    return e * (1 + REL_EPS) if e > 50 else e
+
+
 def verdict(eps, delta, P, Q):
     """None if the pair satisfies the property's inequality, else (kind, measured, allowed)"""
     if delta == 0:
@@ -431,7 +445,7 @@ def verdict(eps, delta, P, Q):
         if e > allowed:
             return ("eff-eps", e, allowed)
         return None
-    H = cl.hockey_stick(P, Q, cl.dexp(d(eps)))
+    H = cl.hockey_stick(P, Q, cl.dexp(slack_eps(eps)))
     allowed = d(delta) * (1 + REL_DELTA) + ABS_DELTA
     if H > allowed:
         return ("hockey-stick", H, allowed)
@@ -567,6 +581,10 @@ def lap_direct(ctx, pt, r, cases=None):
     sens = p["sensitivity"]
     if sens == 0:
         return
+    if b != b and pt.mech != "LaplaceBoundedDomain":
+        ctx.count("scale_unmeasurable_below_output_resolution")
+        ctx.boundary_skipped += 1
+        return
     if not (b > 0) or math.isinf(b):
         report(ctx, pt, f"C02:{pt.mech}:no-positive-scale", "scale", b, 0, "the calibrated scale is not a positive number")
         return
@@ -698,14 +716,17 @@ def bn_direct(ctx, pt, r, cases=None):
     if p["sensitivity"] == 0:
         return
     sc, bound = pt.meas["scale"], pt.meas["bound"]
-    if not (sc > 0 and bound > 0) or math.isinf(bound):
+    if not (sc > 0 and bound > 0):
         report(ctx, pt, "C02:LaplaceBoundedNoise:no-positive-scale", "scale/bound", sc, 0, "degenerate calibration")
         return
     ts = [c[1] for c in cases] if cases else g_ts(r, p["sensitivity"])
     for t in ts:
         t = d(t)
-        P = cl.bounded_noise_laplace(D(0), d(sc), d(bound))
-        Q = cl.bounded_noise_laplace(t, d(sc), d(bound))
+        if math.isinf(bound):       # exp(epsilon) overflowed: no truncation at all, the noise is plain Laplace(sens/eps)
+            P, Q = cl.laplace(D(0), d(sc)), cl.laplace(t, d(sc))
+        else:
+            P = cl.bounded_noise_laplace(D(0), d(sc), d(bound))
+            Q = cl.bounded_noise_laplace(t, d(sc), d(bound))
         for dirn, (A_, B_) in (("x||x+t", (P, Q)), ("x+t||x", (Q, P))):
             v = verdict(p["epsilon"], p["delta"], A_, B_)
             ctx.count("divergences")
@@ -815,7 +836,9 @@ def st_compare(ctx, pt, outs):
         ctx.disagree("calibration.Staircase.geometric-p", p, mp, pt.meas["geom_p"])
         ok = False
     q0 = pt.meas["q0"]
-    if q0 is not None and not (close(mq, q0, 1e-12, 2e-16) or (mq >= 1.0 and q0 >= 1.0 - 2 ** -52)):
+    # exp(eps/2) = inf gives gamma = 0 and a threshold 0/0 = nan: `u < nan` is never true, i.e. threshold 0 in effect
+    if q0 is not None and not (close(mq, q0, 1e-12, 2e-16) or (mq >= 1.0 and q0 >= 1.0 - 2 ** -52)
+                               or (mq != mq and q0 == 0.0)):
         ctx.disagree("calibration.Staircase.binary-threshold", p, mq, q0)
         ok = False
     for (u1, G, u3, u4, out), o in zip(pt.meas["draws"], outs[2:]):
@@ -940,7 +963,7 @@ def ga_direct(ctx, pt, r, cases=None):
     ts = [c[1] for c in cases] if cases else g_ts(r, p["sensitivity"])
     allowed = d(p["delta"]) * (1 + REL_DELTA) + ABS_DELTA
     for t in ts:
-        H = cl.gaussian_hockey_stick(d(t), d(s), d(p["epsilon"]))
+        H = cl.gaussian_hockey_stick(d(t), d(s), slack_eps(p["epsilon"]))
         ctx.count("divergences")
         if H > allowed:
             sig = f"C02:{pt.mech}:hockey-stick"
@@ -964,8 +987,38 @@ def dg_gen(r, budget_sigma=250.0):
     return {"epsilon": 1.0, "delta": 1e-3, "sensitivity": 1}
 
 
+class _Timeout(Exception):
+    pass
+
+
+def with_timeout(seconds, f, *a, **k):
+    """run f under SIGALRM (main thread only; falls back to a plain call elsewhere)"""
+    import signal
+    import threading
+    if threading.current_thread() is not threading.main_thread():
+        return f(*a, **k)
+
+    def h(*_):
+        raise _Timeout()
+    old = signal.signal(signal.SIGALRM, h)
+    signal.alarm(seconds)
+    try:
+        return f(*a, **k)
+    finally:
+        signal.alarm(0)
+        signal.signal(signal.SIGALRM, old)
+
+
 def dg_measure(pt):
-    m = quiet(mk, "GaussianDiscrete", pt.params)
+    if pt.params["epsilon"] > 700:
+        # np.exp(epsilon) overflows: guard the constructor (the root finder may never return)
+        try:
+            m = with_timeout(3, quiet, mk, "GaussianDiscrete", pt.params)
+        except _Timeout:
+            pt.meas = {"sigma": float("nan"), "timeout": True}
+            return
+    else:
+        m = quiet(mk, "GaussianDiscrete", pt.params)
     pt.meas = {"sigma": float(m._scale)}
 
 
@@ -976,6 +1029,9 @@ def dg_lines(pt):
 
 def dg_compare(ctx, pt, outs):
     v = ok_vals(outs[0])
+    if pt.meas.get("timeout"):
+        ctx.count("discrete_gauss_constructor_timeout")
+        return True
     if v is None:
         ctx.disagree("calibration.GaussianDiscrete.sigma", pt.params, outs[0], pt.meas["sigma"])
         return False
@@ -994,13 +1050,18 @@ def dg_direct(ctx, pt, r, cases=None):
     if sens == 0:
         return
     s = pt.meas["sigma"]
+    if pt.meas.get("timeout"):
+        report(ctx, pt, "C02:GaussianDiscrete:calibration-does-not-terminate", "seconds in the constructor", 3, 0,
+               "GaussianDiscrete._find_scale does not return: np.exp(epsilon) overflows to inf for epsilon > 709, the "
+               "objective is inf * 0 = nan and neither branch of the bisection ever moves the bracket")
+        return
     if not (s > 0) or math.isinf(s):
         report(ctx, pt, "C02:GaussianDiscrete:no-positive-sigma", "sigma", s, 0, "degenerate calibration")
         return
     ts = [int(c[1]) for c in cases] if cases else sorted({sens, 1, max(1, sens // 2), r.randint(1, sens)}, reverse=True)
     allowed = d(p["delta"]) * (1 + REL_DELTA) + ABS_DELTA
     for t in ts:
-        H = cl.discrete_gaussian_hockey_stick(t, d(s), d(p["epsilon"]))
+        H = cl.discrete_gaussian_hockey_stick(t, d(s), slack_eps(p["epsilon"]))
         ctx.count("divergences")
         if H > allowed:
             # classify: is the returned midpoint below the smallest private sigma by no more than the bracket
@@ -1098,7 +1159,50 @@ FIXED = [
     ("GaussianDiscrete", {"epsilon": 0.5, "delta": 1e-9, "sensitivity": 3}),
     ("Snapping", {"epsilon": 1.0, "sensitivity": 1.0, "lower": 0.0, "upper": 1000.0}),
     ("Snapping", {"epsilon": 1e-3, "sensitivity": 1e-6, "lower": 0.0, "upper": 1e6}),
+    # sensitivity / epsilon tiny but non-zero: only sensitivity == 0 may be noise-free
+    ("GaussianAnalytic", {"epsilon": 1.0, "delta": 1e-5, "sensitivity": 1e-9}),
+    ("GaussianAnalytic", {"epsilon": 1e9, "delta": 1e-5, "sensitivity": 1.0}),
+    ("Gaussian", {"epsilon": 1.0, "delta": 1e-5, "sensitivity": 1e-12}),
+    ("Laplace", {"epsilon": 1e8, "delta": 0.0, "sensitivity": 1e-3}),
+    ("GaussianDiscrete", {"epsilon": 1e7, "delta": 1e-5, "sensitivity": 1}),
 ]
+
+
+def tiny_ratio(r, mech, p):
+    """move a parameter point into the region sensitivity / epsilon in [1e-15, 1e-7] — tiny sensitivity with an ordinary
+    epsilon, ordinary sensitivity with a huge epsilon (up to 1e9), or both — where only sensitivity == 0 (or epsilon == inf)
+    may be noise-free: a `== 0` shortcut turned into a tolerance test releases the value unprotected there"""
+    p = dict(p)
+    ratio = r.loguniform(1e-15, 1e-7)
+    mode = r.choice(["sens", "sens", "eps", "both"])
+    if mech == "Gaussian":
+        mode = "sens"
+    if mech == "GaussianDiscrete":
+        mode = "eps"
+    if mech == "Uniform":
+        p["sensitivity"] = p["delta"] * ratio
+        return p
+    if mode == "sens":
+        p["sensitivity"] = p["epsilon"] * ratio
+    elif mode == "eps":
+        s = p["sensitivity"] if p["sensitivity"] > 0 else 1.0
+        if mech == "GaussianDiscrete":
+            s = int(r.choice([1, 1, 3]))
+        eps = s / ratio
+        if eps > 1e9:
+            eps, s = 1e9, (1e9 * ratio if mech != "GaussianDiscrete" else s)
+        p["epsilon"], p["sensitivity"] = eps, s
+    else:
+        p["epsilon"] = r.loguniform(50.0, 1e6)
+        p["sensitivity"] = p["epsilon"] * ratio
+    if "lower" in p:
+        if mech == "LaplaceBoundedDomain":
+            p["lower"], p["upper"] = g_domain(r, p["sensitivity"], min_width_over_sens=1.0)
+        elif mech == "Snapping":
+            p["lower"], p["upper"] = g_domain(r, p["sensitivity"], allow_inf=False)
+        else:
+            p["lower"], p["upper"] = g_domain(r, p["sensitivity"])
+    return p
 
 
 def gen_points(ctx, n):
@@ -1107,6 +1211,7 @@ def gen_points(ctx, n):
     weights = [MECHS[k][5] for k in names]
     tot = sum(weights)
     pts = [Point(m, dict(p)) for m, p in FIXED]
+    n_dg_huge = 0
     for _ in range(n):
         x = r.u01() * tot
         for nm, w in zip(names, weights):
@@ -1118,6 +1223,15 @@ def gen_points(ctx, n):
             p = dg_gen(rr, 250.0 if ctx.tier == "quick" else 1500.0)
         else:
             p = MECHS[nm][0](rr)
+        if rr.chance(0.12):
+            if nm == "GaussianDiscrete":
+                # an integer sensitivity >= 1 needs epsilon >= 1e7 to get there, where the constructor may not return
+                # (guarded by a 3 s timeout): at most two such points per run
+                n_dg_huge += 1
+                if n_dg_huge > 2:
+                    pts.append(Point(nm, p))
+                    continue
+            p = tiny_ratio(rr, nm, p)
         pts.append(Point(nm, p))
     return pts
 
